@@ -4,5 +4,6 @@ CONSTANTS
   MaxFields = 2
   MethodLists = "singles"
   Exported = {FALSE}
+  Tagged = {TRUE, FALSE}
 INVARIANTS TypeOK TwinSame GroupingIrrelevant OutputShape Export
 PROPERTY Terminates
